@@ -200,6 +200,9 @@ pub trait Endpoint {
     fn state(&self) -> VerifState;
     /// `regulate_for_store` on a v5 PUBLISH
     fn regulate(&self, p: &Pkt) -> Result<Result<Pkt, Er>, String>;
+    /// `checked_send(concrete packet)`: Ok(None) = the packet type does not implement
+    /// `Sendable` for this role (the call would not compile)
+    fn checked_send(&mut self, p: &Pkt) -> Result<Option<Vec<Ev>>, String>;
 }
 
 pub trait Pid: IsPacketId + Send + mqtt::packet::IntoPacketId<Self> {
@@ -592,7 +595,86 @@ impl<R: RoleType, P: Pid> Ep<R, P> {
     }
 }
 
-impl<R: RoleType + 'static, P: Pid> Endpoint for Ep<R, P> {
+// ---- compile-time checked send, decided per concrete role by autoref specialisation ----
+
+struct Try<'a, R: RoleType, P: Pid, T>(std::cell::RefCell<&'a mut GenericConnection<R, P>>, std::cell::RefCell<Option<T>>);
+trait ViaSendable<P: Pid> {
+    fn go(&self) -> Option<Vec<GenericEvent<P>>>;
+}
+impl<'a, R: RoleType, P: Pid, T: mqtt::connection::Sendable<R, P>> ViaSendable<P> for Try<'a, R, P, T> {
+    fn go(&self) -> Option<Vec<GenericEvent<P>>> {
+        let t = self.1.borrow_mut().take().unwrap();
+        Some(self.0.borrow_mut().checked_send(t))
+    }
+}
+trait ViaNothing<P: Pid> {
+    fn go(&self) -> Option<Vec<GenericEvent<P>>>;
+}
+impl<'a, 'b, R: RoleType, P: Pid, T> ViaNothing<P> for &'b Try<'a, R, P, T> {
+    fn go(&self) -> Option<Vec<GenericEvent<P>>> {
+        None
+    }
+}
+
+pub trait CheckedSend<P: Pid> {
+    fn checked(&mut self, g: GenericPacket<P>) -> Option<Vec<GenericEvent<P>>>;
+}
+macro_rules! checked_impl {
+    ($role:ty) => {
+        impl<P: Pid> CheckedSend<P> for GenericConnection<$role, P> {
+            fn checked(&mut self, g: GenericPacket<P>) -> Option<Vec<GenericEvent<P>>> {
+                macro_rules! t {
+                    ($x:expr) => {
+                        (&Try(std::cell::RefCell::new(self), std::cell::RefCell::new(Some($x)))).go()
+                    };
+                }
+                match g {
+                    GenericPacket::V3_1_1Connect(x) => t!(x),
+                    GenericPacket::V3_1_1Connack(x) => t!(x),
+                    GenericPacket::V3_1_1Subscribe(x) => t!(x),
+                    GenericPacket::V3_1_1Suback(x) => t!(x),
+                    GenericPacket::V3_1_1Unsubscribe(x) => t!(x),
+                    GenericPacket::V3_1_1Unsuback(x) => t!(x),
+                    GenericPacket::V3_1_1Publish(x) => t!(x),
+                    GenericPacket::V3_1_1Puback(x) => t!(x),
+                    GenericPacket::V3_1_1Pubrec(x) => t!(x),
+                    GenericPacket::V3_1_1Pubrel(x) => t!(x),
+                    GenericPacket::V3_1_1Pubcomp(x) => t!(x),
+                    GenericPacket::V3_1_1Disconnect(x) => t!(x),
+                    GenericPacket::V3_1_1Pingreq(x) => t!(x),
+                    GenericPacket::V3_1_1Pingresp(x) => t!(x),
+                    GenericPacket::V5_0Connect(x) => t!(x),
+                    GenericPacket::V5_0Connack(x) => t!(x),
+                    GenericPacket::V5_0Subscribe(x) => t!(x),
+                    GenericPacket::V5_0Suback(x) => t!(x),
+                    GenericPacket::V5_0Unsubscribe(x) => t!(x),
+                    GenericPacket::V5_0Unsuback(x) => t!(x),
+                    GenericPacket::V5_0Publish(x) => t!(x),
+                    GenericPacket::V5_0Puback(x) => t!(x),
+                    GenericPacket::V5_0Pubrec(x) => t!(x),
+                    GenericPacket::V5_0Pubrel(x) => t!(x),
+                    GenericPacket::V5_0Pubcomp(x) => t!(x),
+                    GenericPacket::V5_0Disconnect(x) => t!(x),
+                    GenericPacket::V5_0Pingreq(x) => t!(x),
+                    GenericPacket::V5_0Pingresp(x) => t!(x),
+                    GenericPacket::V5_0Auth(x) => t!(x),
+                }
+            }
+        }
+    };
+}
+checked_impl!(mqtt::connection::role::Client);
+checked_impl!(mqtt::connection::role::Server);
+checked_impl!(mqtt::connection::role::Any);
+
+impl<R: RoleType + 'static, P: Pid> Endpoint for Ep<R, P>
+where
+    GenericConnection<R, P>: CheckedSend<P>,
+{
+    fn checked_send(&mut self, p: &Pkt) -> Result<Option<Vec<Ev>>, String> {
+        let g = build::<P>(p)?;
+        Ok(self.c.checked(g).map(|evs| self.conv(evs, false)))
+    }
     fn idw(&self) -> usize {
         P::W
     }
